@@ -168,15 +168,38 @@ func c15GenCond(r *rand.Rand, sym byte, syms []byte) *c15Cond {
 	}
 }
 
-func c15RandRow(r *rand.Rand) Row { return Row{"v": r.Intn(4), "w": r.Intn(3)} }
+// c15RandRow: most events carry both readings; some are sparse (a heartbeat without v, or without w), so a
+// DEFINE condition reading the absent column must come out not-true for that event whatever was evaluated before.
+// (Not when a DEFINE uses SUM/AVG: whether a running SUM over nothing but NULLs is NULL or 0 is not pinned
+// down by the property, so those queries only see complete events.)
+func c15RandRow(r *rand.Rand, sparse bool) Row {
+	row := Row{"v": r.Intn(4), "w": r.Intn(3)}
+	if !sparse {
+		return row
+	}
+	switch r.Intn(14) {
+	case 0:
+		delete(row, "v")
+	case 1:
+		delete(row, "w")
+	case 2:
+		row["v"] = nil
+	}
+	return row
+}
 
 // c15GenPartRows draws the rows of one partition: noise rows mixed with rows steered so that a
 // randomly derived pattern word is (likely) matched.
 func c15GenPartRows(r *rand.Rand, spec *c15Spec, n int, guided bool) []Row {
 	rows := make([]Row, 0, n)
+	kinds := map[string]bool{}
+	for _, d := range spec.Defs {
+		d.kinds(kinds)
+	}
+	sparse := !kinds["sum"] && !kinds["avg"] && !kinds["sum_scoped"] && !kinds["avg_scoped"]
 	for len(rows) < n {
 		if !guided || r.Intn(10) < 3 {
-			rows = append(rows, c15RandRow(r))
+			rows = append(rows, c15RandRow(r, sparse))
 			continue
 		}
 		word := c15SampleWord(spec.Pat, r, nil)
@@ -187,7 +210,7 @@ func c15GenPartRows(r *rand.Rand, spec *c15Spec, n int, guided bool) []Row {
 			}
 			var row Row
 			for t := 0; t < 6; t++ {
-				row = c15RandRow(r)
+				row = c15RandRow(r, sparse)
 				ctxRows := append(append([]Row{}, rows[base:]...), row)
 				if spec.defineHolds(sym, ctxRows, word[:i+1]) {
 					break
